@@ -203,6 +203,9 @@ class _NP:
     cos = staticmethod(_elementwise(_s.cos, _np.cos))
     tan = staticmethod(_elementwise(_s.tan, _np.tan))
     arctan = staticmethod(_elementwise(_s.atan, _np.arctan))
+    # inverse cosine / sine on (-1, 1) through the arctangent atom: acos x = pi/2 - atan(x / sqrt(1 - x^2))
+    arccos = staticmethod(_elementwise(lambda x: _s.PI / 2 - _s.atan(x / _s.sqrt(_s.ONE - x * x)), _np.arccos))
+    arcsin = staticmethod(_elementwise(lambda x: _s.atan(x / _s.sqrt(_s.ONE - x * x)), _np.arcsin))
     exp = staticmethod(_elementwise(_s.exp, _np.exp))
     log = staticmethod(_elementwise(_s.log, _np.log))
     log10 = staticmethod(_elementwise(_log10, _np.log10))
@@ -479,7 +482,7 @@ def lu_hypotheses():
 
 
 _FUNC_REBIND = {}
-for _name in ("cos", "sin", "tan", "sqrt", "arctan", "exp", "log", "log10", "abs", "zeros", "ones", "eye", "array"):
+for _name in ("cos", "sin", "tan", "sqrt", "arctan", "arccos", "arcsin", "exp", "log", "log10", "abs", "zeros", "ones", "eye", "array"):
     _FUNC_REBIND[id(getattr(_np, _name))] = getattr(NP, _name)
 
 _SCIPY_REBIND = {"coo_matrix": coo_matrix, "csc_matrix": csc_matrix, "csr_matrix": csr_matrix, "diags": diags,
